@@ -19,6 +19,7 @@ sys.path.insert(0, ROOT)
 REPO = os.environ.get('VERIF_REPO', '/repo')
 JOBS = int(os.environ.get('VERIF_JOBS', str(os.cpu_count() or 8)))
 BUILD = os.path.join(ROOT, 'build')
+OUTBASE = os.environ.get('VERIF_OUT', ROOT)     # evidence/ and replays/ go here (mutation runs redirect it)
 INC = os.path.join(REPO, 'fixed_lib', 'include')
 SRC = os.path.join(REPO, 'fixed_lib', 'src')
 GUARD = 'FIXEDMATH_VERIF'
@@ -274,8 +275,8 @@ def check(prop, tier):
                             excluded_known=sum(c.get('excluded_known', 0) for c in clauses.values()),
                             known_findings_reproduced=sorted(kf_hits)),
               assumptions=ASSUMPTIONS + spec.get('assumptions', []), wall_s=round(time.time() - t0, 2), violations=len(violations))
-    os.makedirs(os.path.join(ROOT, 'evidence'), exist_ok=True)
-    with open(os.path.join(ROOT, 'evidence', prop + '.json'), 'w') as f: json.dump(ev, f, indent=1)
+    os.makedirs(os.path.join(OUTBASE, 'evidence'), exist_ok=True)
+    with open(os.path.join(OUTBASE, 'evidence', prop + '.json'), 'w') as f: json.dump(ev, f, indent=1)
 
     # ---- generator self-test: floors on classes (a harness bug if violated, not a violation)
     for cid, floors in ({} if violations else spec.get('floors', {})).items():
@@ -292,7 +293,7 @@ def check(prop, tier):
     rcode = 0
     for v in violations:
         body = json.dumps(v, sort_keys=True, indent=1)
-        d = os.path.join(ROOT, 'replays', prop); os.makedirs(d, exist_ok=True)
+        d = os.path.join(OUTBASE, 'replays', prop); os.makedirs(d, exist_ok=True)
         p = os.path.join(d, hashlib.sha256(json.dumps([v.get('clause'), v.get('args'), v.get('kind', '')]).encode()).hexdigest()[:12] + '.json')
         with open(p, 'w') as f: f.write(body)
         log('violation: %s %s args=%s on %s: %s' % (prop, v.get('clause'), v.get('args'), v.get('cfg'), v.get('what')))
@@ -332,6 +333,9 @@ def main():
         if '--tier' in sys.argv: tier = sys.argv[sys.argv.index('--tier') + 1]
         return check(prop, tier)
     if cmd == 'replay': return replay(sys.argv[2])
+    if cmd == 'mutants':
+        import mutants
+        return mutants.main(sys.argv[2:])
     if cmd == 'build-cuts':
         for p in build_cuts(sys.argv[2:]): print(p)
         return 0
